@@ -1,4 +1,4 @@
-import LokyModel.Lemmas.TrackerTreeSem
+import LokyModel.Lemmas.TrackerTreeThreads
 /-!
 # C13 — no named semaphore or tracked resource outlives its process tree  *(partial)*
 
@@ -370,5 +370,112 @@ theorem sweep_removes_registered {s s' : State} {t : Tid} (hs : step s (.eof t) 
   split at hs
   · injection hs with hs; subst hs; simp [sweep, hreg]
   · simp at hs
+
+/-! ### crash points inside finalizers, concurrent threads -/
+
+/-- **Every name is covered, at every instant.**  In every reachable state without a tracker SIGKILL and
+    without a crash in the creation window, a semaphore name that is in the kernel name space is either
+    still registered with a *live* tracker (which will unlink it at its end-of-life sweep) or belongs to
+    a live process that is inside the SemLock constructor.  This is the invariant behind "a SIGKILL at any
+    point of a finalizer leaks nothing": `_cleanup` unlinks *before* it unregisters, so there is no instant
+    at which a name exists that no tracker answers for. -/
+theorem every_name_is_covered {h : List Ev} {s : State} (hr : Reach h s) (hk : s.trkKills = 0)
+    (hw : s.windowCrashes = 0) (n : Name) (hns : s.ns n = true) (hsem : s.isSem n = true) :
+    (∃ t, 0 < (s.trks t).reg n ∧ (s.trks t).alive = true)
+    ∨ (∃ o, (s.objs o).name = n ∧ (s.objs o).ph = .opened ∧ (s.procs (s.objs o).proc).st = .live) := by
+  have i1 := reach_inv1 hr
+  have i2 := reach_inv2 hr
+  obtain ⟨o, hon, ho⟩ := i2.a n hns hsem
+  rcases ho with ho | ⟨_, t, ht⟩
+  · right
+    rcases i2.o5 o ho with hl | hwc
+    · exact ⟨o, hon, ho, hl⟩
+    · omega
+  · left
+    refine ⟨t, ht, ?_⟩
+    rw [alive_iff]
+    cases hph : (s.trks t).ph with
+    | unborn =>
+      by_cases hlt : t < s.nTrk
+      · exact absurd hph (i1.t1' t hlt)
+      · have := (i1.t1 t (Nat.le_of_not_lt hlt)).2.2 n; omega
+    | killed => have := i1.t4 t hph; omega
+    | done => have := (i1.t3 t hph).2 n; omega
+    | starting0 => simp
+    | starting1 => simp
+    | running => simp
+
+/-- **SIGKILL inside a finalizer, at any position.**  Let member `p` be SIGKILLed while it runs the
+    finalizers of the objects `os`, after any number `k` of their clean-up primitives (`sem_unlink`,
+    UNREGISTER) — collection of one primitive, or the exit-time finalizers — from any reachable state, and
+    let anything happen afterwards.  Once every process of the tree is gone and the trackers have done what
+    they do on their own, no semaphore name is left (hypotheses as in `namespace_restored`). -/
+theorem killfin_any_position {h : List Ev} {s s1 s' : State} (hr : Reach h s) {p : Pid} {os : List Oid} {k : Nat}
+    (hkill : run s (killFin p os k) = some s1) {rest : List Ev} (hrest : run s1 rest = some s')
+    (hk : s'.trkKills = 0) (hw : s'.windowCrashes = 0) (hg : allGone s') (hq : quiescent s') :
+    ∀ n, s'.isSem n = true → s'.ns n = false :=
+  namespace_restored (reach_run (reach_run hr hkill) hrest) hk hw hg hq
+
+/-- … and right after the kill, whatever `k`, every name of the tree is still covered. -/
+theorem killfin_leaves_every_name_covered {h : List Ev} {s s1 : State} (hr : Reach h s) {p : Pid} {os : List Oid}
+    {k : Nat} (hkill : run s (killFin p os k) = some s1) (hk : s1.trkKills = 0) (hw : s1.windowCrashes = 0)
+    (n : Name) (hns : s1.ns n = true) (hsem : s1.isSem n = true) :
+    (∃ t, 0 < (s1.trks t).reg n ∧ (s1.trks t).alive = true)
+    ∨ (∃ o, (s1.objs o).name = n ∧ (s1.objs o).ph = .opened ∧ (s1.procs (s1.objs o).proc).st = .live) :=
+  every_name_is_covered (reach_run hr hkill) hk hw n hns hsem
+
+/-- the three positions around the two primitives of one Lock of a child (the root lives on, then is killed
+    too): before `sem_unlink` the tracker unlinks and reports the name, between the two it only reports it,
+    after UNREGISTER nothing is left to do -/
+example : ∃ s0 a0 a1 a2 b0 b1 b2,
+    run init [.spawn 0 1 false, .semOpen 1 0, .semRegister 1 0] = some s0
+    ∧ run s0 (killFin 1 [0] 0) = some a0 ∧ run s0 (killFin 1 [0] 1) = some a1 ∧ run s0 (killFin 1 [0] 2) = some a2
+    ∧ a0.ns 0 = true ∧ (a0.trks 0).reg 0 = 1 ∧ a1.ns 0 = false ∧ (a1.trks 0).reg 0 = 1
+    ∧ a2.ns 0 = false ∧ (a2.trks 0).reg 0 = 0
+    ∧ run a0 [.exit 0 .crash, .boot 0, .boot 0, .eof 0] = some b0
+    ∧ run a1 [.exit 0 .crash, .boot 0, .boot 0, .eof 0] = some b1
+    ∧ run a2 [.exit 0 .crash, .boot 0, .boot 0, .eof 0] = some b2
+    ∧ b0.ns 0 = false ∧ b1.ns 0 = false ∧ b2.ns 0 = false
+    ∧ (b0.trks 0).leakedSem = 1 ∧ (b1.trks 0).leakedSem = 1 ∧ (b2.trks 0).leakedSem = 0 := by
+  exact ⟨_, _, _, _, _, _, _, rfl, rfl, rfl, rfl, rfl, rfl, rfl, rfl, rfl, rfl, rfl, rfl, rfl, rfl, rfl, rfl, rfl,
+    rfl, rfl⟩
+
+/-- **Threads of a member remove a name only through a finalizer of that member.**  Whatever the threads
+    of member `p` do at the same time — creating primitives, tracked operations, finalizers, in any
+    interleaving, with a tracker (re)launch in the middle — a name that was in the kernel name space and
+    is gone afterwards was removed by a finalizer `p` ran, or by an explicit `maybe_unlink` of that very
+    (file) name: concurrent first use never costs a live semaphore its name. -/
+theorem member_threads_remove_only_by_finalizer {h : List Ev} {s s' : State} (hr : Reach h s) (p : Pid)
+    (acts : List TAct) (hm : ∀ a ∈ acts, memberAct p a.ev = true) (hrun : runT s acts = some s') (n : Name)
+    (h0 : s.ns n = true) (h1 : s'.ns n = false) :
+    (∃ a ∈ acts, ∃ o, a.ev = .finUnlink p o) ∨ (∃ a ∈ acts, a.ev = .op p .maybeUnlink n) := by
+  induction acts generalizing h s with
+  | nil => simp [runT, run] at hrun; subst hrun; rw [h0] at h1; cases h1
+  | cons a acts ih =>
+    simp only [runT, List.map_cons, run] at hrun
+    split at hrun
+    · rename_i s1 hs1
+      cases hn1 : s1.ns n with
+      | true =>
+        rcases ih (Reach.step hr hs1) (fun b hb => hm b (by simp [hb])) hrun hn1 with ⟨b, hb, o, ho⟩ | ⟨b, hb, ho⟩
+        · exact Or.inl ⟨b, by simp [hb], o, ho⟩
+        · exact Or.inr ⟨b, by simp [hb], ho⟩
+      | false =>
+        have hma := hm a (by simp)
+        rcases name_removed_only_by hr hs1 n h0 hn1 with ⟨q, o, he, _, _⟩ | ⟨q, he⟩ | ⟨t, he, _⟩
+        · rw [he] at hma; simp only [memberAct, beq_iff_eq] at hma; subst hma
+          exact Or.inl ⟨a, by simp, o, he⟩
+        · rw [he] at hma; simp only [memberAct, beq_iff_eq] at hma; subst hma
+          exact Or.inr ⟨a, by simp, he⟩
+        · rw [he] at hma; simp [memberAct] at hma
+    · simp at hrun
+
+/-- four threads create a Lock each as the first tracked operations of the root, in an interleaving in which
+    every `sem_open` precedes the first REGISTER: one tracker, four registered names, all in the name space -/
+example : ∃ s, runT init [⟨1, .semOpen 0 0⟩, ⟨2, .semOpen 0 1⟩, ⟨3, .semOpen 0 2⟩, ⟨4, .semOpen 0 3⟩,
+      ⟨3, .semRegister 0 2⟩, ⟨1, .semRegister 0 0⟩, ⟨4, .semRegister 0 3⟩, ⟨2, .semRegister 0 1⟩] = some s
+    ∧ s.nTrk = 1 ∧ (s.procs 0).warned = 0 ∧ (s.trks 0).reg 0 = 1 ∧ (s.trks 0).reg 3 = 1
+    ∧ s.ns 0 = true ∧ s.ns 1 = true ∧ s.ns 2 = true ∧ s.ns 3 = true := by
+  exact ⟨_, rfl, rfl, rfl, rfl, rfl, rfl, rfl, rfl, rfl⟩
 
 end LokyModel.TrackerTree
